@@ -168,20 +168,35 @@ def cases(seed=0, thorough=False):
         r = ds.Select(lambda e:
                       {A}).Select(lambda e: {B})
         """.format(A=body(a, "e"), B=body(b, "e")), ["lambda e: {A}".format(A=body(a, "e")), "lambda e: {B}".format(B=body(b, "e"))], False, "O9 body on the next line, second lambda after it")
-    # ---- layouts with a recorded known finding (see known_findings.json): still exercised on every run
+    # ---- layouts that used to record a neighbouring lambda silently (repaired in /repo: they now raise; see known_findings.json "fixed")
     a, b = nb(), nb()
     add("""
         flag_{n} = False
         r = ds.Select((lambda e: {A}) if flag_{n} else (lambda e: {B}))
         """.format(n=a, A=body(a, "e"), B=body(b, "e")), ["lambda e: {B}".format(B=body(b, "e"))], False, "K1 conditional expression choosing between two lambdas")
-    out[-1]["known_id"] = "C03-conditional-argument"
     a, b = nb(), nb()
     add("r = ds.Select(f=lambda e: {A}).Select(lambda e: {B})".format(A=body(a, "e"), B=body(b, "e")),
         ["lambda e: {A}".format(A=body(a, "e")), "lambda e: {B}".format(B=body(b, "e"))], False, "K2 lambda passed by keyword, same-signature lambda later on the line")
-    out[-1]["known_id"] = "C03-keyword-argument"
+    a, b, c = nb(), nb(), nb()
+    add("""
+        r = ds.Select(lambda e: e.so_jets.Select(
+                lambda j: {B}).Count() + {A}).Select(lambda e: {C})
+        """.format(A=body(a, "e"), B=body(b, "j"), C=body(c, "e")),
+        ["lambda e: e.so_jets.Select(lambda j: {B}).Count() + {A}".format(A=body(a, "e"), B=body(b, "j")), "lambda e: {C}".format(C=body(c, "e"))], False,
+        "K3 nested lambda starts the continuation line, same-signature call after it")
+    a, b, c = nb(), nb(), nb()
+    add("""
+        r = ds.Select(lambda e: e.so_jets.Where(
+                lambda j: {B} > 1).Count() + {A}).Where(lambda e: {C} > 1)
+        """.format(A=body(a, "e"), B=body(b, "j"), C=body(c, "e")),
+        ["lambda e: e.so_jets.Where(lambda j: {B} > 1).Count() + {A}".format(A=body(a, "e"), B=body(b, "j")), "lambda e: {C} > 1".format(C=body(c, "e"))], False,
+        "K3 nested lambda starts the continuation line, different call after it")
+    a, b = nb(), nb()
+    add("r = ds.Select(lambda e: (lambda a, b: a + b)({A}, 1)).Select(lambda f: {B})".format(A=body(a, "e"), B=body(b, "f")),
+        ["lambda e: (lambda a, b: a + b)({A}, 1)".format(A=body(a, "e")), "lambda f: {B}".format(B=body(b, "f"))], False, "K4 nested lambda with two parameters")
     # ---- combinatorial chains: number of calls x methods x argument names x line-break style
     ncombo = 400 if thorough else 90
-    styles = ["oneline", "black", "breakopen", "mixed", "bodybreak"]
+    styles = ["oneline", "black", "breakopen", "mixed", "bodybreak", "nestedbreak"]
     seen = set()
     tries = 0
     while len(seen) < ncombo and tries < ncombo * 20:
@@ -198,7 +213,14 @@ def cases(seed=0, thorough=False):
         ids = [nb() for _ in range(ncalls)]
         lamsrc = ["lambda %s: %s" % (v, _arg2(op, body(i, v), v)) for op, v, i in zip(ops, vs, ids)]
         calls = [".%s(%s)" % (op, ls) for op, ls in zip(ops, lamsrc)]
-        if style == "oneline":
+        if style == "nestedbreak":
+            # every Select/Where lambda holds a nested call whose own lambda starts the next line; everything is one bracketed expression
+            nid = [nb() for _ in range(ncalls)]
+            nest = ["%s.so_jets.Select(lambda q: q.i_pt + %d).Count() + " % (v, k) if op != "SelectMany" else "" for op, v, k in zip(ops, vs, nid)]
+            lamsrc = ["lambda %s: %s" % (v, _arg2(op, nst + body(i, v), v)) for op, v, i, nst in zip(ops, vs, ids, nest)]
+            code = pre + "ds" + "".join(".%s(%s)" % (op, ls.replace(".so_jets.Select(lambda q:", ".so_jets.Select(\n        lambda q:", 1) if nst else ls) for op, ls, nst in zip(ops, lamsrc, nest))
+            lines = [list(range(ncalls))]
+        elif style == "oneline":
             code = pre + "ds" + "".join(calls)
             lines = [list(range(ncalls))]
         elif style == "black":
@@ -216,6 +238,8 @@ def cases(seed=0, thorough=False):
             code = pre + "(ds" + "".join(calls[:cut]) + "\n    " + "".join(calls[cut:]) + ")"
             lines = [list(range(cut)), list(range(cut, ncalls))]
         documented = all(len({(ops[k], vs[k]) for k in ln}) == len(ln) for ln in lines)
+        if style == "nestedbreak":
+            documented = False
         if style in ("mixed", "bodybreak") and len({(o, v) for o, v in zip(ops, vs)}) < ncalls:
             # a bracket opened on the lambda's own line makes the scan run on into the following lines: two lambdas with the same
             # method and argument name anywhere in the bracketed expression are then ambiguous - not a layout documented as supported
